@@ -6,6 +6,10 @@
  .3 K10 change detection: every "old value" snapshot in the recompute functions is taken from, and
         compared with, the same field, and every field the function recomputes is snapshotted -
         otherwise a change is not reported and never propagated to the ancestors
+ .4 K10 the ordering of the parent-link set compares every identifying field
+ .5 K13 dependency completeness of the path-error recompute set: what computePathError reads of the node
+        itself / of its parents decides which nodes updateScores must schedule when a recompute call
+        reports a change (defect D9 was found by this rule's question and replayed in triage/c19_patherror)
 """
 import re
 
@@ -20,10 +24,13 @@ EXPLANATION = (
     'same buffer size, and readFromFile, writeToFile and writeBackup transfer exactly sizeof(BookSerializeData::data) bytes per node; '
     '(3) in computeNegaMax and computePathError each snapshot `old = field` is compared with that same field in the "changed" result, '
     'and the set of snapshotted fields equals the set of score fields the function writes (a stale snapshot makes updateScores stop '
-    'propagating a change towards the root); (4) ParentInfo::operator<, which orders the std::set of parent links, compares every field of both operands.')
+    'propagating a change towards the root); (4) ParentInfo::operator<, which orders the std::set of parent links, compares every field of both operands; '
+    '(5) dependency completeness of the path-error recompute set in updateScores: the fields computePathError reads of the node itself and of its '
+    'parents are derived from its body (getters resolved); whenever a recompute call on node X reports a change and writes a field of the first kind, X '
+    'itself is scheduled, and for a field of the second kind every child of X is scheduled, on every path on which the change is reported; every '
+    'element of the recompute set is handed to the recomputation.')
 UNDECIDED = ('that scores are at the fixed point of the negamax / path-error / expansion-cost equations for every history (value-level '
-             'over a DAG). Noted by a seeding sub-agent, not decided here: on the unchanged tree path errors can go stale after '
-             'setSearchResult when a node changes through a child while its own parent does not.')
+             'over a DAG); the upward (negamax / expansion cost) scheduling with its updateThis/updateChildren/updateParents flags is not decided.')
 ASSUMPTIONS = ['Serializer::serialize / deSerialize are inverse for equal type lists (utility code outside this property)']
 
 NODE = 'BookBuild::BookNode'
@@ -40,6 +47,7 @@ def run(fb, rep, tier):
     c2_serialize(fb, rep)
     c3_change_detection(fb, rep)
     c4_set_ordering(fb, rep)
+    c5_recompute_dependencies(fb, rep)
 
 
 def c4_set_ordering(fb, rep):
@@ -271,3 +279,235 @@ def c3_change_detection(fb, rep):
                     n_used += 1
         rep.ob(clause, 'K2 must-use', 'updateScores uses the "changed" result of every recompute call to decide about propagation', n_calls >= 2 and n_used == n_calls, f.where,
                '%d recompute calls, %d results tested' % (n_calls, n_used), f.sname)
+
+
+# ---------------------------------------------------------------------------------------------------------------
+# C19.5  dependency completeness of the path-error recompute set
+
+def _node_field(n):
+    f = n.get('f') or ''
+    return f[len(NODE) + 2:] if n.get('k') == 'mem' and f.startswith(NODE + '::') else None
+
+
+def _is_this(t):
+    t = _strip(t)
+    return isinstance(t, dict) and (t.get('k') == 'this' or (t.get('k') == 'un' and t.get('op') == '*' and _is_this(t.get('e'))))
+
+
+def _all_trees(func):
+    for _, _, e in func.events():
+        yield e
+    for bid, blk in func.blocks.items():
+        c = (blk.get('term') or {}).get('cond')
+        if c is not None and bid not in func.dead:
+            yield c
+
+
+def _node_reads(fb, func):
+    """(fields of the node itself, fields of another node) read by a BookNode member function; calls to
+    BookNode member functions on either are resolved one level (the getters)."""
+    own, other = set(), set()
+    for t in _all_trees(func):
+        for n in walk(t):
+            fld = _node_field(n)
+            if fld is not None:
+                (own if _is_this(n.get('b')) else other).add(fld)
+            elif n.get('k') == 'call' and n.get('repo') and cname(n).startswith(NODE + '::') and n.get('recv') is not None:
+                g = fb.find1(cname(n))
+                if g is None or not g.has_cfg:
+                    continue
+                sub = {q[5:] for q in R.this_fields_read(g)}
+                (own if _is_this(n.get('recv')) else other).update(sub)
+    return own, other
+
+
+def _node_writes(func):
+    out = set()
+    for _, _, e in func.events():
+        for n in walk(e):
+            if n.get('k') in ('asg', 'incdec'):
+                tgt = _strip(n.get('l') if n.get('k') == 'asg' else n.get('e'))
+                fld = _node_field(tgt) if isinstance(tgt, dict) else None
+                if fld is not None and _is_this(tgt.get('b')):
+                    out.add(fld)
+    return out
+
+
+def _decl_of(func, vid):
+    for b, i, e in func.events():
+        if e.get('k') == 'decl':
+            for v in e.get('vars', []):
+                if v.get('id') == vid:
+                    return v
+    return None
+
+
+def _same_expr(a, b):
+    a, b = _strip(a), _strip(b)
+    if not (isinstance(a, dict) and isinstance(b, dict)):
+        return False
+    if a.get('k') == 'var' and b.get('k') == 'var':
+        return a.get('id') == b.get('id')
+    return a.get('k') == 'this' and b.get('k') == 'this'
+
+
+def _element_of_children(func, expr, node):
+    """expr is `v.second` (or `v->second`) where v is the loop variable of a range-for over `node->children`."""
+    expr = _strip(expr)
+    if not (isinstance(expr, dict) and expr.get('k') == 'mem' and (expr.get('f') or '').endswith('::second')):
+        return False
+    v = _strip(expr.get('b'))
+    seen = 0
+    while isinstance(v, dict) and seen < 16:
+        seen += 1
+        if v.get('k') == 'var':
+            d = _decl_of(func, v.get('id'))
+            if d is None:
+                return False
+            v = _strip(d.get('init'))
+        elif v.get('k') == 'call' and v.get('recv') is not None and (v.get('op') == '*' or cname(v).split('::')[-1] in ('begin', 'cbegin')):
+            v = _strip(v.get('recv'))
+        elif v.get('k') == 'ctor' and v.get('args'):
+            v = _strip(v['args'][0])
+        elif v.get('k') == 'mem':
+            return _node_field(v) == 'children' and _same_expr(v.get('b'), node)
+        else:
+            return False
+    return False
+
+
+def _guards_after(func, start, b):
+    """Guards of block b that are decided at or after block `start` (a dominator of b); loop conditions of
+    compiler-generated range-for iterators are not guards of the loop body for this purpose."""
+    doms = func.dominators()
+    blocks = {x for x in func.blocks if start in doms.get(x, set())}
+    out = []
+    for ce, side in G.guard_trees(func, blocks, b, skip_loops=True):
+        if any(n.get('k') == 'var' and str(n.get('n', '')).startswith('__begin') for n in walk(ce)):
+            continue
+        out.append((ce, side))
+    return out
+
+
+def c5_recompute_dependencies(fb, rep):
+    """K13: updateScores recomputes path errors only for the nodes it collects.  A node's path error is a
+    function of (a) fields of the node itself and (b) fields of its parents, as read by computePathError.  So when
+    a recompute call on node X reports a change of a field in (a), X itself must be scheduled; when it reports a
+    change of a field in (b), every child of X must be scheduled - on every path on which the change is reported.
+    The dependency table is derived from computePathError and the recompute functions on every run."""
+    clause = 'C19.5'
+    reader_nm = NODE + '::computePathError'
+    reader = fb.find1(reader_nm)
+    if rep.need(clause, reader, reader_nm) is None:
+        return
+    own_reads, other_reads = _node_reads(fb, reader)
+    writers = {}
+    for nm in (NODE + '::computeNegaMax', reader_nm):
+        f = fb.find1(nm)
+        if rep.need(clause, f, nm) is None:
+            return
+        writers[nm] = _node_writes(f)
+    cands = [f for f in fb.funcs.values() if f.has_cfg and f.sname == NODE + '::updateScores']
+    rep.floor(clause, 'updateScores', len(cands), 1)
+    n_dep = 0
+    for f in cands:
+        bodies = [f] + fb.lambdas_in(f)
+        # schedulers: lambdas that call the reader on their own parameter, and the std::function variables holding them
+        sched_names = set()
+        for b, i, e in f.events():
+            if e.get('k') == 'decl':
+                for v in e.get('vars', []):
+                    for lam in R.lambdas_in_tree(fb, v.get('init')):
+                        pids = {p.get('id') for p in lam.d.get('params', [])}
+                        if any(n.get('k') == 'call' and cname(n) == reader_nm and isinstance(_strip(n.get('recv')), dict)
+                               and _strip(n['recv']).get('k') == 'var' and _strip(n['recv']).get('id') in pids
+                               for t in _all_trees(lam) for n in walk(t)):
+                            sched_names.add(v['n'])
+        # the recompute set: a local std::set of nodes drained by a range-for that hands every element to a scheduler
+        set_names = set()
+
+        def direct(e):
+            """node expression handed directly to the path-error recomputation by event e, or None"""
+            if e.get('k') != 'call':
+                return None
+            if cname(e) == reader_nm:
+                return e.get('recv')
+            r = _strip(e.get('recv'))
+            if e.get('op') == '()' and isinstance(r, dict) and r.get('k') == 'var' and r.get('n') in sched_names and e.get('args'):
+                return e['args'][0]
+            return None
+        for b, i, e in f.events():
+            x = direct(e)
+            x = _strip(x) if x is not None else None
+            if isinstance(x, dict) and x.get('k') == 'var':
+                # loop variable of a range-for over a local set?
+                v = x
+                for _ in range(16):
+                    if not isinstance(v, dict):
+                        break
+                    if v.get('k') == 'var':
+                        d = _decl_of(f, v.get('id'))
+                        if d is None or 'std::set<' + NODE in (d.get('rc') or '') and not str(d['n']).startswith('__'):
+                            break
+                        v = _strip(d.get('init'))
+                    elif v.get('k') == 'call' and v.get('recv') is not None:
+                        v = _strip(v.get('recv'))
+                    elif v.get('k') == 'ctor' and v.get('args'):
+                        v = _strip(v['args'][0])
+                    else:
+                        break
+                if isinstance(v, dict) and v.get('k') == 'var' and 'std::set<' + NODE in (v.get('rc') or ''):
+                    ok = not _guards_after(f, f.entry, b)
+                    rep.ob(clause, 'K13 dependency completeness', 'updateScores hands every node of the recompute set to the path-error recomputation', ok, R.site(f, e),
+                           'set ' + v['n'] + ', guards: %s' % [show(c, 80) for c, _ in _guards_after(f, f.entry, b)], f.sname)
+                    n_dep += 1
+                    set_names.add(v['n'])
+
+        def scheduled(g, e):
+            x = direct(e)
+            if x is not None:
+                return x
+            r = _strip(e.get('recv')) if e.get('k') == 'call' else None
+            if isinstance(r, dict) and r.get('k') == 'var' and r.get('n') in set_names and cname(e).split('::')[-1] in ('insert', 'emplace') and e.get('args'):
+                return e['args'][0]
+            return None
+        for g in bodies:
+            doms = g.dominators()
+            for b, i, e in g.events():
+                if e.get('k') != 'decl':
+                    continue
+                for v in e.get('vars', []):
+                    call = _strip(v.get('init'))
+                    if not (isinstance(call, dict) and call.get('k') == 'call' and cname(call) in writers):
+                        continue
+                    w = cname(call)
+                    node = _strip(call.get('recv'))
+                    needs = []
+                    if w != reader_nm and writers[w] & own_reads:
+                        needs.append(('the node itself', sorted(writers[w] & own_reads), lambda x: _same_expr(x, node)))
+                    if writers[w] & other_reads:
+                        needs.append(('every child of the node', sorted(writers[w] & other_reads), lambda x, g=g: _element_of_children(g, x, node)))
+                    for what, flds, match in needs:
+                        n_dep += 1
+                        ok = False
+                        detail = 'no such scheduling site'
+                        for b2, i2, e2 in g.events():
+                            x = scheduled(g, e2)
+                            if x is None or not match(x):
+                                continue
+                            if b in doms.get(b2, set()):
+                                gs = _guards_after(g, b, b2)
+                                bad = [c for c, side in gs if not (side and isinstance(_strip(c), dict) and _strip(c).get('k') == 'var' and _strip(c).get('id') == v['id'])]
+                                detail = 'guards after the call: %s' % [('' if s_ else '!') + show(c, 60) for c, s_ in gs]
+                                if not bad:
+                                    ok = True
+                                    break
+                            elif b2 in doms.get(b, set()) and not _guards_after(g, g.entry, b2):
+                                ok = True
+                                detail = 'scheduled unconditionally before the call'
+                                break
+                        rep.ob(clause, 'K13 dependency completeness',
+                               'updateScores: when %s reports a change, %s is scheduled for the path-error recomputation, which reads %s of %s'
+                               % (w.split('::')[-1], what, '/'.join(flds), 'the node' if what.startswith('the node') else 'its parent'),
+                               ok, R.site(g, e), detail, f.sname)
+    rep.floor(clause, 'recompute dependencies of updateScores', n_dep, 4)
